@@ -1041,10 +1041,10 @@ def signature(t, clause, at, sc):
     if clause == 'Deadlock':
         sites = sorted({th[2][1] for th in d.get('threads', []) if th[1] == 'blocked' and th[2] and
                         th[0].startswith(('_Incoming', 'user', 'simdriver', 'Thread:'))})
-        if '_call_all_failed_callbacks' in sites and f.get('drop_by') == 'sender':
-            return 'Deadlock/link-error-from-sender-under-write-lock'
         if any(op[0] == 'dw' and op[3] == 0 and op[4] == 'prog' for op in (sc.get('ops', []) if sc else [])):
             return 'Deadlock/zero-length-write-with-progress-callback'
+        if '_call_all_failed_callbacks' in sites and f.get('drop_by') == 'sender':
+            return 'Deadlock/link-error-from-sender-under-write-lock'
 
         return 'Deadlock/' + '+'.join(sites)
     if clause in ('Wedged', 'ThreadDied', 'NotServedAfterwards', 'Incomplete'):
